@@ -31,6 +31,7 @@ class Sites:
     """Rebinds module attributes to raising wrappers; restores on exit.
 
     spec: list of {"site": name, "exc": type name, "when": "always"|[occurrence indices]}
+          ("idle": True turns the same occurrences into calls that do nothing and return "idle_value")
     registry: name -> (module name, attribute)
     """
 
@@ -60,6 +61,10 @@ class Sites:
             self.calls[name] = n + 1
             when = f.get("when", "always")
             if when == "always" or n in when:
+                if f.get("idle"):
+                    # the twin of a failing call: the same call does nothing (and says so by returning None)
+                    self.fired[name + ":idle"] = self.fired.get(name + ":idle", 0) + 1
+                    return f.get("idle_value")
                 self.fired[name + ":" + f["exc"]] = self.fired.get(name + ":" + f["exc"], 0) + 1
                 raise EXC_TYPES[f["exc"]]()
             return orig(*a, **k)
